@@ -50,10 +50,11 @@ def _cosim_one(a):
 def _cosim_inputs(a):
     """what a real run READS (template files through the loaders, DSDL definitions) must be named by --list-inputs"""
     import json
-    lang, gs, omit = a
+    lang, gs, omit = a[:3]
+    user_templates = a[3] if len(a) > 3 else None
     with common.scratch("nvc08i_") as d:
         base = ["--target-language", lang, "--generate-support", gs] + (["--omit-serialization-support"] if omit else []) \
-            + (["--experimental-languages"] if lang != "c" else [])
+            + (["--experimental-languages"] if lang != "c" else []) + (["--templates", user_templates] if user_templates else [])
         ns = str(common.VERIF / "data" / "ns1" / "vt")
         r1 = _nnvg(base + ["--list-inputs", "-O", str(d / "o"), ns], str(d))
         if r1.returncode != 0:
@@ -92,7 +93,7 @@ def main(tier: str) -> int:
                        "flag combinations rejected by the real _post_process_args are assumed away (documented precondition)"]
     rep.not_covered = ["input-listing completeness as *influence* (not expressible as a solver assertion); its observable lower bound -- every "
                        "template/DSDL file a real run reads is listed -- is checked by concrete co-simulation only, not by the solver",
-                       "custom template directories, output extension / namespace stem overrides", "lookup (dependency) namespaces"]
+                       "custom template directories beyond the one of /verif/data/ut1 (concrete co-simulation only), output extension / namespace stem overrides", "lookup (dependency) namespaces"]
     rep.extra["explanation"] = ("CrossHair/z3 over the real CLI dispatch with every flag symbolic: listed set == set a real run creates; "
                                 "listing/dry-run only ever call generators in dry-run mode; real generator entry points write nothing when is_dryrun")
     rep.extra["trusted_base"] = ["crosshair-tool 0.0.110", "z3", "CPython 3.12", "generator contract stubs (validated by co-simulation)"]
@@ -126,6 +127,8 @@ def main(tier: str) -> int:
     # input listing: every template file and DSDL file a real run reads is named by --list-inputs (concrete co-simulation;
     # "influence" as such is not a solver-expressible notion, "is read by the run" is its observable lower bound)
     icombos = [(l, g, o) for l in langs for g in ("as-needed", "never", "always") for o in (False, True)]
+    # a user template directory whose templates include same-named files from different sub-directories
+    icombos += [("c", "never", False, str(common.VERIF / "data" / "ut1")), ("c", "as-needed", True, str(common.VERIF / "data" / "ut1"))]
     iok = 0
     for a, verdict, detail in common.pmap(_cosim_inputs, icombos):
         if verdict == "ok":
@@ -134,7 +137,7 @@ def main(tier: str) -> int:
             continue
         rd = common.replay_dir("C08", dict(cosim_inputs=a))
         flags = f"--target-language {a[0]} --generate-support {a[1]}" + (" --omit-serialization-support" if a[2] else "") + \
-                (" --experimental-languages" if a[0] != "c" else "")
+                (" --experimental-languages" if a[0] != "c" else "") + (f" --templates {a[3]}" if len(a) > 3 else "")
         (rd / "replay.sh").write_text("#!/bin/bash\n# templates/DSDL files read by a real run vs --list-inputs\nD=$(mktemp -d); cd $D\n"
                                       f"{common.PY} -m nunavut {flags} --list-inputs -O $D/o {common.VERIF}/data/ns1/vt | tr ';' '\\n' | sort > listed.txt\n"
                                       f"{common.PY} {common.VERIF}/xh/trace_inputs.py {flags} -O $D/o {common.VERIF}/data/ns1/vt | grep @@TRACE@@\n"
